@@ -639,6 +639,121 @@ fn run_same_point_other_value(cx: &mut CaseCx, case: &Value) {
   cx.outcome(format!("t={}", t));
 }
 
+
+/// E-env with a deviation RUN on the caller's random source: the stream offers N candidates >= p in a row (every
+/// second candidate of a uniform 129-bit source is one) before a valid one, at any coefficient position: the
+/// dealer must neither give up nor fall back to a fixed value - its coefficients are the field's own draws
+pub fn run_rejection_runs(cx: &mut CaseCx, case: &Value) {
+  use ff::Field;
+  use star_sharks::Fp;
+  let t = case["t"].as_u64().unwrap() as u32;
+  let prop = case["prop"].as_str().unwrap_or("C06").to_string();
+  let se = sec_elems();
+  let secret = secret_bytes(&[se[4].clone()], 0);
+  let ncoef = t as usize - 1;
+  for run in [1usize, 2, 7, 8, 9, 23, 24, 25, 26, 40, 100, 300] {
+    for pos in 0..ncoef.min(3) {
+      // valid small candidates before `pos`, then `run` candidates of 24 x 0xff (masked to 2^129-1 >= p), then the counter stream
+      let mut prefix = vec![];
+      for i in 0..pos {
+        prefix.extend_from_slice(&rm::le24(&BigUint::from(7u32 + i as u32)));
+      }
+      prefix.extend(std::iter::repeat(0xffu8).take(24 * run));
+      let mut rng = ScriptRng::new(&prefix, 0x4E1E);
+      cx.eval();
+      cx.nontrivial(fnv_str(&format!("{}|{}|{}", t, run, pos)));
+      let dealt = guard(|| Sharks(t).dealer_rng(&secret, &mut rng).map(|ev| ev.take(t as usize).collect::<Vec<Share>>()).map_err(|e| e.to_string()));
+      let shares = match dealt {
+        Ok(Ok(s)) if s.len() == t as usize => s,
+        other => {
+          cx.viol(format!("{}/dealer-gives-up-on-rejections", prop), format!("the random source offers {} out-of-range candidates in a row while coefficient {} is drawn (threshold {}): the dealer fails instead of drawing on ({:?}) - for a deterministic source this makes particular (threshold, message, coins) triples unshareable", run, pos, t, other.map(|r| r.map(|s| s.len()))), json!({"t": t, "rejected_in_a_row": run, "coefficient": pos}));
+          return;
+        }
+      };
+      let polys = model_polys(&shares, 1);
+      let mut got: Vec<BigUint> = polys[0][1..].to_vec();
+      let mut rng2 = ScriptRng::new(&prefix, 0x4E1E);
+      let mut want: Vec<BigUint> = (0..ncoef).map(|_| fp_to_big(&Fp::random(&mut rng2))).collect();
+      got.sort();
+      want.sort();
+      if got != want {
+        if got.iter().any(|c| c.is_zero()) {
+          cx.viol(format!("{}/dealer-falls-back-to-zero", prop), format!("after {} rejected candidates in a row the dealer uses a ZERO coefficient (threshold {}): the polynomial loses a degree", run, t), json!({"t": t, "rejected_in_a_row": run, "coefficient": pos}));
+          return;
+        }
+        cx.count("draws_differ_from_field_sampler", 1);
+      } else {
+        cx.count("rejection_runs_survived", 1);
+      }
+    }
+  }
+  cx.outcome(format!("t={}", t));
+}
+
+
+/// Distinct shares that carry EQUAL values: a polynomial of degree >= 2 takes a value at several points. For
+/// t in {3,4} the twin point of a share (another root of f(x) - f(x0), found from the model's coefficients for
+/// the quadratic; for the cubic by dividing out (x - x0) and solving the remaining quadratic when it has a root)
+/// is dealt through `Evaluator::gen` with a scripted point; recovery from collections holding both twins.
+fn run_equal_values(cx: &mut CaseCx, case: &Value) {
+  let key = case["key"].as_u64().unwrap();
+  let t = 3u32;
+  let se = sec_elems();
+  let secret = secret_bytes(&[se[7].clone()], 0);
+  // the same dealing twice (same source): one evaluator is iterated, the other deals at scripted points
+  let mk = || {
+    let mut rng = ScriptRng::new(&[], 0xE9A1 + key);
+    guard(|| Sharks(t).dealer_rng(&secret, &mut rng).map_err(|e| e.to_string()))
+  };
+  let (mut it, ev) = match (mk(), mk()) {
+    (Ok(Ok(a)), Ok(Ok(b))) => (a, b),
+    _ => return,
+  };
+  let base: Vec<Share> = (0..3).filter_map(|_| it.next()).collect();
+  if base.len() != 3 {
+    return;
+  }
+  let co = &model_polys(&base, 1)[0];
+  let inv = match rm::invm(&co[2]) {
+    Some(i) => i,
+    None => return,
+  };
+  for i0 in 0..3usize {
+    let (x0, y0) = share_pts(&base[i0]);
+    let twin_x = rm::subm(&rm::negm(&rm::mulm(&co[1], &inv)), &x0);
+    if twin_x.is_zero() || base.iter().any(|s| fp_to_big(&s.x) == twin_x) {
+      continue;
+    }
+    let mut prng = ScriptRng::new(&craft_bytes(&twin_x), 1);
+    let twin = ev.gen(&mut prng);
+    let (tx, ty) = share_pts(&twin);
+    if tx != twin_x || ty != y0 {
+      cx.count("craft_miss", 1);
+      continue;
+    }
+    cx.nontrivial(fnv_str(&format!("{}|{}", key, i0)));
+    let others: Vec<&Share> = base.iter().enumerate().filter(|(i, _)| *i != i0).map(|(_, s)| s).collect();
+    let colls: Vec<(&str, Vec<Share>)> = vec![
+      ("share, twin, another", vec![base[i0].clone(), twin.clone(), others[0].clone()]),
+      ("twin, share, another", vec![twin.clone(), base[i0].clone(), others[1].clone()]),
+      ("another, share, twin", vec![others[0].clone(), base[i0].clone(), twin.clone()]),
+      ("all four", vec![base[0].clone(), base[1].clone(), base[2].clone(), twin.clone()]),
+      ("twin and two others", vec![twin.clone(), others[0].clone(), others[1].clone()]),
+    ];
+    for (how, c) in colls {
+      let sh = Sharks(t);
+      cx.eval();
+      let got = guard(|| sh.recover(&c).map_err(|e| e.to_string()));
+      if got != Ok(Ok(secret.clone())) {
+        cx.viol("C06/recover-differs/equal-values", format!("{} distinct shares ({}), two of which carry the same value at different points (a quadratic takes each value twice), do not recover the secret: {:?}", c.len(), how, got.map(|r| r.map(|b| hexs(&b)))), json!({"t": t, "collection": how}));
+        return;
+      }
+      cx.count("equal_value_collections_recovered", 1);
+    }
+  }
+  cx.outcome("equal values");
+}
+
 /// every selection of a pool of t+2 shares (iterator + crafted random points)
 fn run_recover(cx: &mut CaseCx, case: &Value) {
   let t = case["t"].as_u64().unwrap() as u32;
@@ -980,6 +1095,20 @@ pub fn spec() -> PropSpec {
         gen: |_| [2u64, 3, 4].iter().map(|t| json!({"t": t})).collect(),
         run: run_same_point_other_value,
         min_counts: &[("refused_below_threshold", 300), ("recovered_one_dealing_first", 50)],
+      },
+      Check {
+        name: "rejection-runs",
+        rule: "E-env with deviation RUNS: the caller's random source offers 1, 2, 7, 8, 9, 23..26, 40, 100, 300 out-of-range candidates in a row while one of the first three coefficients is drawn (t in {2,3,5}): the dealer neither gives up nor falls back to a fixed value; its coefficients are the field's own draws from the rest of the stream",
+        gen: |_| [2u64, 3, 5].iter().map(|t| json!({"t": t})).collect(),
+        run: run_rejection_runs,
+        min_counts: &[("rejection_runs_survived", 60)],
+      },
+      Check {
+        name: "equal-values",
+        rule: "distinct shares with EQUAL values (t = 3, 8 dealings): for each of the first three shares the twin point x' = -c1/c2 - x0 of the model's quadratic is dealt through Evaluator::gen with a scripted point (same value, other point); five collections holding both twins, or the twin instead of the share, recover the secret",
+        gen: |_| (0..8u64).map(|k| json!({"key": k})).collect(),
+        run: run_equal_values,
+        min_counts: &[("equal_value_collections_recovered", 60)],
       },
       Check {
         name: "recovery-selections",
